@@ -1167,6 +1167,55 @@ func oracleFor(pairs []pairRel) func(cond ssa.Value) (bool, bool) {
 				return cmpOutcome(b.Op, flipRel(p.R))
 			}
 		}
+		// cmp.Compare(a, b) <op> k: the three-way result is -1, 0 or +1
+		for _, side := range [][2]ssa.Value{{b.X, b.Y}, {b.Y, b.X}} {
+			call, ok := resolve(side[0]).(*ssa.Call)
+			if !ok || len(call.Call.Args) != 2 {
+				continue
+			}
+			if pth, nm := stdCallName(call); pth != "cmp" || nm != "Compare" {
+				continue
+			}
+			k, isK := constInt(side[1])
+			if !isK {
+				continue
+			}
+			for _, p := range pairs {
+				r := rel(0)
+				if equivValue(call.Call.Args[0], p.A) && equivValue(call.Call.Args[1], p.B) {
+					r = p.R
+				} else if equivValue(call.Call.Args[0], p.B) && equivValue(call.Call.Args[1], p.A) {
+					r = flipRel(p.R)
+				} else {
+					continue
+				}
+				v := int64(0)
+				switch r {
+				case relLT:
+					v = -1
+				case relGT:
+					v = 1
+				}
+				op := b.Op
+				if side[0] == b.Y { // k <op> Compare(..)
+					op = flipOp(op)
+				}
+				switch op {
+				case token.EQL:
+					return v == k, true
+				case token.NEQ:
+					return v != k, true
+				case token.LSS:
+					return v < k, true
+				case token.LEQ:
+					return v <= k, true
+				case token.GTR:
+					return v > k, true
+				case token.GEQ:
+					return v >= k, true
+				}
+			}
+		}
 		return false, false
 	}
 }
@@ -1640,6 +1689,11 @@ func ruleElementwise(w *World, r *Report, fn string, pidx int) {
 			if isIntType(et) {
 				return
 			}
+			// an error variable (a named result kept in memory, a single-exit err): set by the
+			// failing element, looked at to leave the loop; it carries no data between elements
+			if isErrorType(et) {
+				return
+			}
 			for _, rd := range reads {
 				covered := false
 				for _, wr := range writes {
@@ -1700,8 +1754,45 @@ func ruleNoSkip(w *World, r *Report, fn string) {
 				}
 				return true
 			}
-			// a module helper that inserts into a map it is handed (register(set, key))
+			// a module helper that writes into an object that outlives the iteration: a set it is
+			// handed (by pointer, as a map, or as a closure that captured one)
 			if g := calleeOf(x); g != nil && w.InModule(g) && g.Blocks != nil {
+				outside := func(v ssa.Value) bool {
+					in, ok := resolve(v).(ssa.Instruction)
+					if !ok {
+						return true
+					}
+					lp := innermostLoop(nloops, x.Block())
+					return lp == nil || !lp.Blocks[in.Block()]
+				}
+				es := effectsFor(w).Summary(g)
+				for j := range es.WritesParam {
+					if j < len(x.Call.Args) && holdsRefs(x.Call.Args[j].Type()) && outside(x.Call.Args[j]) {
+						return true
+					}
+				}
+				for j := range es.WritesParamDeep {
+					if j < len(x.Call.Args) && outside(x.Call.Args[j]) {
+						return true
+					}
+				}
+				for _, a := range x.Call.Args {
+					// a function value created outside the loop (a stateful closure such as a
+					// first-time filter) may record through what it captured
+					if _, isFn := a.Type().Underlying().(*types.Signature); isFn && outside(a) {
+						if _, isPlain := resolve(a).(*ssa.Function); !isPlain {
+							return true
+						}
+					}
+					if mc, ok := resolve(a).(*ssa.MakeClosure); ok && outside(a) {
+						if fn, ok := mc.Fn.(*ssa.Function); ok {
+							cs := effectsFor(w).Summary(fn)
+							if len(cs.WritesFree) > 0 || len(cs.WritesFreeDeep) > 0 {
+								return true
+							}
+						}
+					}
+				}
 				for i, a := range x.Call.Args {
 					if !isMap(a.Type()) || i >= len(g.Params) {
 						continue
